@@ -288,6 +288,11 @@ var pipeShapes = []pshape{
 	23: {cs: []xclause{clSAO, clOAZ}, okinds: []int{0}, sel: []proj{pS, {binding: "z", op: "count", alias: "n"}, {binding: "o", op: "count", distinct: true, alias: "m"}}, groupBy: []string{"s"}, limit: -1, prop: "C11"},
 	24: {cs: []xclause{xq(qclause{s: bS, p: bP, o: bO})}, okinds: []int{0}, sel: []proj{pS, {binding: "p"}, {binding: "o", op: "count", alias: "n"}}, groupBy: []string{"s", "p"}, limit: -1, prop: "C11"},
 	30: {cs: []xclause{clSAOT}, okinds: []int{0}, temporal: true, na: 3, sel: []proj{{binding: "t"}, {binding: "s", op: "count", alias: "n"}}, groupBy: []string{"t"}, limit: -1, prop: "C11x"},
+	// ---- the single open clause ?s ?p ?o (the only shape whose LIMIT is pushed into the driver lookup)
+	33: {cs: []xclause{xq(qclause{s: bS, p: bP, o: bO})}, okinds: []int{0}, sel: []proj{pS, {binding: "p"}, pO}, having: "?s = /u<b>", havingRef: func(r rrow) bool { return r["s"].b == 'b' }, limit: 1, prop: "C13"},
+	34: {cs: []xclause{xq(qclause{s: bS, p: bP, o: bO})}, okinds: []int{0}, sel: []proj{pS, {binding: "o", op: "count", alias: "n"}}, groupBy: []string{"s"}, limit: 1, prop: "C11"},
+	35: {cs: []xclause{xq(qclause{s: bS, p: bP, o: bO})}, okinds: []int{0}, sel: []proj{pS, {binding: "p"}, pO}, order: []ordKey{{"s", true}}, limit: 1, prop: "C12"},
+	36: {cs: []xclause{xq(qclause{s: bS, p: bP, o: bO})}, okinds: []int{0}, sel: []proj{pS, {binding: "p"}, pO}, limit: 1, prop: "C12"},
 	// ---- C14: a repeated ORDER BY key does not change the order the keys are applied in
 	31: {cs: []xclause{clSAO}, okinds: []int{0}, sel: []proj{pS, pO}, order: []ordKey{{"s", false}, {"o", false}}, orderText: "order by ?s asc, ?o asc, ?s asc", limit: -1, prop: "C14"},
 	32: {cs: []xclause{clSAO}, okinds: []int{0}, sel: []proj{pS, pO}, order: []ordKey{{"o", true}, {"s", false}}, orderText: "order by ?o desc, ?s asc, ?o desc", limit: -1, prop: "C14"},
